@@ -821,6 +821,12 @@ def rule_silent(c: Ctx) -> RuleResult:
                             if p_st and p_sil and not any(isinstance(x, ast.Name) and x.id == p_sil and isinstance(x.ctx, ast.Store) for x in own_nodes(g.node)):
                                 queue.append((g, p_sil, p_st))
                                 continue
+                            # handed the state only: everything it does must be allowed in validation mode as it stands - unless
+                            # the call itself is dominated by `silent` being false (then it is an ordinary effect, judged below)
+                            dominated = all((z_ := res.get(cn_.id)) is None or z_.holds(sil, False) for cn_ in cfg.owner(n)) if sil else False
+                            if p_st and not dominated:
+                                queue.append((g, "", p_st))
+                                continue
                         effects.append((n, f"call of {U(n.func)} which may write {st}.{bad}"))
                 elif isinstance(n.func, ast.Attribute) and n.func.attr in ("append", "extend", "insert", "pop", "update", "setdefault", "clear"):
                     b = n.func.value
@@ -849,7 +855,7 @@ def rule_silent(c: Ctx) -> RuleResult:
                 z = res.get(cn.id)
                 if z is None:
                     continue
-                if not z.holds(sil, False):
+                if not sil or not z.holds(sil, False):
                     ok = False
             key = f"{f.short}|{what.split(' which')[0][:40]}|{alpha(f, node)[:50]}"
             if ok:
@@ -859,8 +865,8 @@ def rule_silent(c: Ctx) -> RuleResult:
                       "scratch write that is saved before and restored after on every path (not observable by the caller)")
             else:
                 r.add(key, c.where(f, node), f.short, U(node)[:70], "violation",
-                      f"{what} can execute in validation mode (silent=True): a terminator / skipToken probe would change the token "
-                      f"stream or parser context")
+                      f"{what} can execute in validation mode (silent=True" + ("" if sil else "; this helper is called on a path where silent may be true") +
+                      "): a terminator / skipToken probe would change the token stream or parser context")
     r.floor = 40
     return r
 
